@@ -102,6 +102,15 @@ class World:
             return '%d SENTCONNECT %d %s' % (sid, s['on'], s['target'])
         if r < 0.15:
             return '%d REMAP %d 93.184.216.%d:%s SOURCE=%s' % (sid, on, sid, s['target'].rsplit(':', 1)[1], rng.choice(['CACHE', 'EXIT']))
+        if on and r < 0.19:
+            # Tor takes the stream off its circuit by reporting circuit 0 (no DETACHED line)
+            s['on'] = 0
+            kind = rng.choice(['REMAP', 'CONTROLLER_WAIT', 'SENTRESOLVE'])
+            s['status'] = kind
+            return '%d %s 0 %s' % (sid, kind, s['target'])
+        if s['status'] == 'NEWRESOLVE' and r < 0.5:
+            s['status'] = 'SENTRESOLVE'
+            return '%d SENTRESOLVE %d %s' % (sid, on, s['target'])
         if on and r < 0.45:
             s['status'] = 'SUCCEEDED'
             return '%d SUCCEEDED %d %s' % (sid, on, s['target'])
